@@ -7,7 +7,7 @@ hand-written transition system takes from the *shape* of the code is extracted a
 whether the code has that shape now:
 
   loop():              quitResetAtEntry / quitResetAtExit (where `quit_ = false` stands relative to the `while`),
-                       whileTestsQuit, drainEachIteration, finalDrain, loopingBracket
+                       whileTestsQuit, drainEachIteration, finalDrain (none | once | untilEmpty), loopingBracket
   quit():              quitStoresFirst
   doPendingFunctors(): callingSetBeforeSwap, callingResetAfterRun, drainSwaps
   queueInLoop():       appendUnderLock
@@ -115,6 +115,11 @@ def _classify(st, what):
         if len(ks) != 2:
             raise ExtractError("%s: unsupported `while` form" % what)
         return S("while", n, cond=ks[0], body=_stmts(ks[1], what))
+    if k == "DoStmt":
+        ks = kids(n)
+        if len(ks) != 2:
+            raise ExtractError("%s: unsupported `do` form" % what)
+        return S("dowhile", n, cond=ks[1], body=_stmts(ks[0], what))
     if k == "CXXForRangeStmt":
         ks = kids(n)
         rng = None
@@ -351,7 +356,21 @@ def _loop(docs, out):
     tests_quit = cond == "¬ (q)"
     body = loop.body
     is_drain = lambda x: _is_call(x, "this", "doPendingFunctors")
-    _only(before + after, what, lambda x: x.tag == "set" and x.target in ("looping_", "quit_") and x.value in (True, False),
+
+    def is_drain_until_empty(x):
+        """`do { doPendingFunctors(); } while (queueSize() > 0);` (also `!= 0`)"""
+        if x.tag != "dowhile" or len(x.body) != 1 or not is_drain(x.body[0]):
+            return False
+        try:
+            c = Tr({"queueSize()": "n"}).expr(x.cond)
+        except ExtractError:
+            return False
+        return c in ("(n > 0)", "(n ≠ 0)", "(0 < n)", "(0 ≠ n)")
+    for x in before + after:
+        if x.tag == "dowhile" and not is_drain_until_empty(x):
+            raise ExtractError("%s: a `do … while` the model does not have (expected `do { doPendingFunctors(); } "
+                               "while (queueSize() > 0);`)" % what)
+    _only(before + after, what, is_drain_until_empty, lambda x: x.tag == "set" and x.target in ("looping_", "quit_") and x.value in (True, False),
           is_drain, lambda x: _is_call(x, "this", "assertInLoopThread"))
     _only(body, what, is_drain,
           lambda x: _is_call(x, "activeChannels_", "clear"),
@@ -369,8 +388,8 @@ def _loop(docs, out):
     if len(polls) != 1 or len(dispatch) != 1 or polls[0] > dispatch[0]:
         raise ExtractError("%s: the `while` body is not poll; dispatch over activeChannels_; …" % what)
     drain_each = len(drains) == 1 and drains[0] == len(body) - 1 and drains[0] > dispatch[0]
-    final = _index(after, lambda s: _is_call(s, "this", "doPendingFunctors"))
-    if len(final) > 1 or _index(before, lambda s: _is_call(s, "this", "doPendingFunctors")):
+    final = _index(after, lambda s: is_drain(s) or is_drain_until_empty(s))
+    if len(final) > 1 or _index(before, lambda s: is_drain(s) or is_drain_until_empty(s)):
         raise ExtractError("%s: doPendingFunctors() is called outside the `while` at an unexpected place" % what)
     lt = _index(before, lambda s: _is_set(s, "looping_", True))
     lf = _index(after, lambda s: _is_set(s, "looping_", False))
@@ -385,7 +404,13 @@ def _loop(docs, out):
     _flag(out, "whileTestsQuit", tests_quit, "`EventLoop::loop`: the `while` tests `!quit_`")
     _flag(out, "drainEachIteration", drain_each,
           "`EventLoop::loop`: `doPendingFunctors()` is the last call of the `while` body, after the channel dispatch")
-    _flag(out, "finalDrain", bool(final), "`EventLoop::loop`: a `doPendingFunctors()` call follows the `while`")
+    shape = "none" if not final else ("untilEmpty" if is_drain_until_empty(after[final[0]]) else "once")
+    out.append("/-- how `loop()` treats the functor queue after its `while` -/\ninductive FinalDrain\n"
+               "  /-- nothing: what is queued then is never run -/\n  | none\n"
+               "  /-- one `doPendingFunctors()`: what that batch queues in turn is never run -/\n  | once\n"
+               "  /-- `do { doPendingFunctors(); } while (queueSize() > 0);` -/\n  | untilEmpty\n"
+               "deriving DecidableEq, Repr")
+    out.append("/-- `EventLoop::loop`: the drain that follows the `while` -/\ndef finalDrain : FinalDrain := .%s" % shape)
     _flag(out, "loopingBracket", bracket, "`EventLoop::loop`: `looping_ = true` before the `while`, `looping_ = false` after it")
     out.append("")
 
